@@ -822,7 +822,7 @@ def check_fixed(ctx, schema, ops, kind):
                 p, key, q, why = bad[0]
                 found = (i, classify(w, op, err, p, key, q, prev), {'p': p, 'attr': list(key), 'q': q, 'why': why, 'outcome': err or 'ok'})
                 stop = True; break
-            skip = err is not None and err not in MODEL_ERRS
+            skip = err is not None and (err not in MODEL_ERRS or op['k'] == 'setMany')
             if err is not None and op['k'] == 'create': ops = ops[:i + 1]          # later calls would refer to the object that was not created
             if skip and norm_dump(snap) != norm_dump(prev):
                 ctx.count('failure-outside-model:%s:STATE-CHANGED' % err); stop = True; break
@@ -843,7 +843,7 @@ def flush_fixed(ctx):
     global FIXED_BATCH
     batch, FIXED_BATCH = FIXED_BATCH, []
     if not batch or not ctx.driver.ok: return
-    outs = ctx.driver('C12', [{'op': 'run', 'schema': ms, 'ops': [model_op(o) for o, r in zip(ops, real) if not r[2]]} for _, ms, ops, real in batch])
+    outs = ctx.driver('C12', [{'op': 'run', 'schema': ms, 'ops': [m for o, r in zip(ops, real) if not r[2] for m in expand(o)]} for _, ms, ops, real in batch])
     for (schema, ms, ops, real), out in zip(batch, outs):
         steps = out.get('steps')
         if steps is None:
@@ -852,7 +852,9 @@ def flush_fixed(ctx):
         k = -1
         for i, (err, snap, skip) in enumerate(real):
             if skip: continue
-            k += 1
+            n_ex = len(expand(ops[i]))
+            if n_ex == 0: continue
+            k += n_ex
             m = steps[k]
             if (m['err'] or None) != (err or None) or [o for o in norm_dump(m['objs']) if o['alive']] != [o for o in norm_dump(snap) if o['alive']]:
                 ctx.divergence('model and real code differ on a directed history', {'schema': schema, 'ops': ops[:i + 1]}, model=[m['err'], m['objs']], impl=[err, snap]); break
